@@ -56,6 +56,23 @@ REG["C16"] = {
     ],
 }
 
+REG["C05"] = {
+    "units": ["validate"],
+    "scope": "TestCase::validate: wrong exit code => Err(InvalidExitCode{actual, expected}) regardless of output; Ok => exit status is Code(expected) "
+             "(0 when none written) [or Detached, which the reporting sites filter out] AND the configured stream (stderr iff output_stream==stderr, else stdout) "
+             "is in the expectation language (via the C01 contract of DiffTool::diff); code ok && deterministic && accepted => Ok (via the C03 contract). "
+             "The From<&OutputStream> for &[u8] conversion is verified to return the stream's bytes.",
+    "assumptions": DIFF_TRUST + [
+        "contracts of DiffTool::new/diff and Diff::has_differences are imported from unit diff (proved there by the C01/C02/C03 checks), used here as external_body",
+        "R16: `E.map_err(F)?` desugared to match/return; R8: anyhow!(..) replaced by an opaque error value",
+        "for output_stream == combined the executor has merged stderr into stdout before validate is called (subprocess, out of reach)",
+        "Detached outputs validate as today (update.rs validates them); bin/commands/test.rs filters Detached before validate — textual anchor only",
+    ],
+    "not_decided": ["that the executor hands validate the output of *this* test case", "that bin/commands/test.rs counts Err as failed and Timeout before validate",
+                    "impl From<subprocess::ExitStatus> for ExitStatus (Signaled/Undetermined -> Unknown): Kani harness, thorough tier (pending)"],
+    "callsites": [("src/bin/commands/test.rs", "if output.exit_code == ExitStatus::Detached { count_detached += 1; continue; }")],
+}
+
 VX_NOTE = ("Trusted: Verus/Z3; the extractor's rewrite rules (DESIGN §4.2, each firing is logged in evidence.rewrites_fired); "
            "prelude.rs shims and assume_specifications (mechanically scanned into evidence.trusted_base); "
            "machine integers are NOT idealised (usize overflow is an obligation).")
@@ -77,10 +94,13 @@ LEVELS["C16"] = {"category": "proof", "technique": "Verus postconditions on extr
     "text": "Unbounded proof for all configurations and all environment maps that layering takes each key / variable from the higher layer; "
             "associativity, identity and accumulation of prepend/append are lemmas over the contracts. Call-site order is assumed (textual anchor).",
     "design_ref": "DESIGN.md §5 C16", "note": VX_NOTE}
+LEVELS["C05"] = {"category": "proof", "technique": "Verus postconditions on extracted TestCase::validate, modular over the diff unit's contracts",
+    "text": "Unbounded proof for all test cases, outputs and output_stream settings of the verdict function: Ok iff exit code equals the expected one "
+            "and the selected stream is accepted; wrong code reported regardless of output; no exit code => never Ok.",
+    "design_ref": "DESIGN.md §5 C05", "note": VX_NOTE}
 
 NOT_APPLICABLE = [
     {"property_id": "C04", "reason": "being built (rule matchers under contract) — not yet claimed"},
-    {"property_id": "C05", "reason": "being built (TestCase::validate under contract) — not yet claimed"},
     {"property_id": "C06", "reason": "being built (markdown tokenizer, partial) — not yet claimed"},
     {"property_id": "C07", "reason": "Cram parsing: reachable only by assuming contracts for the regex-based line classification; lowest assurance per hour, not built (DESIGN §10)"},
     {"property_id": "C08", "reason": "being built (quantifier round trip, partial) — not yet claimed"},
